@@ -242,6 +242,7 @@ def run_plain(case, point, mode="plain", uses_rng=False):
         ar.uninstall()
     try:
         out = case.run(env)
+        out.notes["_any32"] = any(isinstance(a, np.ndarray) and a.dtype == np.float32 for a in env.inputs.values())
         return out, None
     except Exception as e:  # noqa: BLE001
         return None, "%s: %s" % (type(e).__name__, e)
@@ -447,7 +448,7 @@ def validate_path(case, pr, uses_rng):
         sd, pd = nominal_dtype(so[k]), nominal_dtype(po[k])
         if sd != pd and not (sd.startswith("float") and pd == "float"):
             return False, "%s: dtype %s (shim) vs %s (plain)" % (k, sd, pd)
-        tol = 2e-3 if "32" in pd or "16" in pd else 1e-7
+        tol = 2e-3 if ("32" in pd or "16" in pd or out.notes.get("_any32")) else 1e-7
         scl = _scale(pv)
         for a, b in zip(sv, pv):
             if a != a and b != b:
